@@ -345,9 +345,10 @@ def run(ctx):
             s = stream[:close]
             exp, off = [], 0
             for p in pdus:
-                if off + len(p) <= close:
-                    exp.append(["pdu", p])
-                    off += len(p)
+                if off + len(p) > close:
+                    break  # this PDU is cut by the close: nothing after it is delivered either
+                exp.append(["pdu", p])
+                off += len(p)
             exp.append("closed")
             for cut in sorted({1, 5, 6, 7, close // 2, close - 1}):
                 if 0 < cut < close:
